@@ -122,7 +122,9 @@ func (gn *GlobalNode) updateConfig(fields map[string]string) error {
 			gn.OwnerId = value
 
 		default:
-			return gn.setCostValue(key, value)
+			if err := gn.setCostValue(key, value); err != nil {
+				return err
+			}
 		}
 	}
 	return nil
